@@ -153,7 +153,7 @@ def c07_run(pid, tier, seed):
     mcov = props_machine.coverage_of(res, scns)
     # same transition graphs under AddressSanitizer + UBSan (smaller bounds in the quick tier)
     gh_asan = vf.build_gh("asan")
-    scns_a = props_machine.c07("quick" if q else "thorough")
+    scns_a = props_machine.c07("quick")
     for s in scns_a:
         s.name += "-asan"
         s.trace = None
